@@ -74,6 +74,12 @@ class FitFractions:
         self.cached_grad_total += g_int_mc
         cahced_res = self.amp.used_res
         amp_tmp = self.amp
+        try:
+            self._append_int_res(amp_tmp, mcdata, weight, args, kwargs)
+        finally:
+            self.amp.set_used_res(cahced_res)
+
+    def _append_int_res(self, amp_tmp, mcdata, weight, args, kwargs):
         for i in range(len(self.res)):
             for j in range(i, -1, -1):
                 if i == j:
@@ -92,8 +98,6 @@ class FitFractions:
                 )
                 self.cached_int[name] = self.cached_int[name] + int_tmp
                 self.cached_grad[name] = self.cached_grad[name] + g_int_tmp
-
-        self.amp.set_used_res(cahced_res)
 
     def get_frac_grad(self, sum_diag=True):
         n = len(self.res)
@@ -175,7 +179,7 @@ def nll_grad(f, var, args=(), kwargs=None, options=None):
     return f_w
 
 
-def cal_fitfractions(amp, mcdata, res=None, batch=None, args=(), kwargs=None):
+def _cal_fitfractions(amp, mcdata, res=None, batch=None, args=(), kwargs=None):
     r"""
     defination:
 
@@ -258,7 +262,7 @@ def cal_fitfractions(amp, mcdata, res=None, batch=None, args=(), kwargs=None):
     return fitFrac, err_fitFrac
 
 
-def cal_fitfractions_no_grad(
+def _cal_fitfractions_no_grad(
     amp, mcdata, res=None, batch=None, args=(), kwargs=None
 ):
     r"""
@@ -350,3 +354,23 @@ def sum_gradient(
 
 
 sum_no_gradient = functools.partial(sum_gradient, grad=False)
+
+
+def _restore_used_res(f):
+    """restore the selected resonances of ``amp`` also when ``f`` raises"""
+
+    @functools.wraps(f)
+    def g(amp, *args, **kwargs):
+        cached_res = amp.used_res
+        try:
+            return f(amp, *args, **kwargs)
+        finally:
+            amp.set_used_res(cached_res)
+
+    return g
+
+
+cal_fitfractions = _restore_used_res(_cal_fitfractions)
+cal_fitfractions.__name__ = "cal_fitfractions"
+cal_fitfractions_no_grad = _restore_used_res(_cal_fitfractions_no_grad)
+cal_fitfractions_no_grad.__name__ = "cal_fitfractions_no_grad"
